@@ -38,7 +38,7 @@ impl Flag {
         if !guard.panicking && thread::panicking() {
             let is_canceled = if crate::coroutine_impl::is_coroutine() {
                 let cancel = crate::coroutine_impl::current_cancel_data();
-                cancel.is_canceled()
+                cancel.is_cancel_requested()
             } else {
                 false
             };
